@@ -132,4 +132,3 @@ make_field!(
     FPS16_61441,
     2,
 );
-
